@@ -1,5 +1,6 @@
 use crate::Monitor;
 pub mod c01;
+pub mod c03;
 pub mod c17;
 pub mod c18;
 
@@ -7,6 +8,7 @@ pub fn lookup(id: &str) -> Option<Monitor> {
   match id {
     "C01" => Some(c01::monitor_c01()),
     "C02" => Some(c01::monitor_c02()),
+    "C03" => Some(c03::monitor()),
     "C17" => Some(c17::monitor()),
     "C18" => Some(c18::monitor()),
     _ => None,
